@@ -1,6 +1,7 @@
 import Ruint.Lemmas.FacadeC
 import Ruint.Lemmas.GenBinOps
 import Ruint.Gen.WordsFacade
+import Ruint.Gen.WordsBitsFwd
 import Ruint.Gen.WordsConv
 import Ruint.Gen.WordsConv2
 
@@ -302,5 +303,36 @@ theorem gen_facade_primitive_casts :
       Ruint.Gen.nt_ToPrimitive_to_u128, Ruint.Gen.nt_FromPrimitive_from_i64, Ruint.Gen.nt_FromPrimitive_from_u64,
       Ruint.Gen.nt_FromPrimitive_from_i128, Ruint.Gen.nt_FromPrimitive_from_u128] <;>
     (split <;> simp_all [okOpt]) <;> (try (split <;> simp_all [okOpt]))
+
+/-! ## The `forward!`ed methods of `Bits` as regenerated from the source (G)
+
+`Gen/WordsBitsFwd.lean`: every line of every `forward! { … }` invocation in `src/bit_arr.rs` is matched against the arms of the
+`forward!` macro as `macro_rules!` does (receiver form, `const` / `unsafe`, literal return type or `$res` wildcard, first match),
+the arm's body is instantiated and translated with `Bits` read as the transparent wrapper it is (`self.0`, `.into()`,
+`Bits::from`, `Bits(..)` are the identity — a declared modelling decision). Each is the `Uint` method of the same name on the
+same arguments (the eight byte-array / limb-reference methods are outside the subset and listed in the generated file). -/
+
+theorem gen_bits_forwarders :
+    (∀ (fuel : Nat) (BITS LIMBS : Nat) (self : List Nat), Ruint.Gen.bits_reverse_bits fuel BITS LIMBS self = Ruint.Gen.uint_reverse_bits fuel BITS LIMBS self)
+    ∧ (∀ (fuel : Nat) (BITS LIMBS : Nat) (self : List Nat), Ruint.Gen.bits_leading_zeros fuel BITS LIMBS self = Ruint.Gen.uint_leading_zeros fuel BITS LIMBS self)
+    ∧ (∀ (fuel : Nat) (BITS LIMBS : Nat) (self : List Nat), Ruint.Gen.bits_leading_ones fuel BITS LIMBS self = Ruint.Gen.uint_leading_ones fuel BITS LIMBS self)
+    ∧ (∀ (BITS LIMBS : Nat) (self : List Nat), Ruint.Gen.bits_trailing_zeros BITS LIMBS self = Ruint.Gen.uint_trailing_zeros BITS LIMBS self)
+    ∧ (∀ (BITS LIMBS : Nat) (self : List Nat), Ruint.Gen.bits_trailing_ones BITS LIMBS self = Ruint.Gen.uint_trailing_ones BITS LIMBS self)
+    ∧ (∀ (fuel : Nat) (BITS LIMBS : Nat) (self : List Nat) (rhs : Nat), Ruint.Gen.bits_checked_shl fuel BITS LIMBS self rhs = Ruint.Gen.uint_checked_shl fuel BITS LIMBS self rhs)
+    ∧ (∀ (fuel : Nat) (BITS LIMBS : Nat) (self : List Nat) (rhs : Nat), Ruint.Gen.bits_checked_shr fuel BITS LIMBS self rhs = Ruint.Gen.uint_checked_shr fuel BITS LIMBS self rhs)
+    ∧ (∀ (fuel : Nat) (BITS LIMBS : Nat) (self : List Nat) (rhs : Nat), Ruint.Gen.bits_overflowing_shl fuel BITS LIMBS self rhs = Ruint.Gen.uint_overflowing_shl fuel BITS LIMBS self rhs)
+    ∧ (∀ (fuel : Nat) (BITS LIMBS : Nat) (self : List Nat) (rhs : Nat), Ruint.Gen.bits_overflowing_shr fuel BITS LIMBS self rhs = Ruint.Gen.uint_overflowing_shr fuel BITS LIMBS self rhs)
+    ∧ (∀ (fuel : Nat) (BITS LIMBS : Nat) (self : List Nat) (rhs : Nat), Ruint.Gen.bits_wrapping_shl fuel BITS LIMBS self rhs = Ruint.Gen.uint_wrapping_shl fuel BITS LIMBS self rhs)
+    ∧ (∀ (fuel : Nat) (BITS LIMBS : Nat) (self : List Nat) (rhs : Nat), Ruint.Gen.bits_wrapping_shr fuel BITS LIMBS self rhs = Ruint.Gen.uint_wrapping_shr fuel BITS LIMBS self rhs)
+    ∧ (∀ (fuel : Nat) (BITS LIMBS : Nat) (self : List Nat) (rhs : Nat), Ruint.Gen.bits_rotate_left fuel BITS LIMBS self rhs = Ruint.Gen.uint_rotate_left fuel BITS LIMBS self rhs)
+    ∧ (∀ (fuel : Nat) (BITS LIMBS : Nat) (self : List Nat) (rhs : Nat), Ruint.Gen.bits_rotate_right fuel BITS LIMBS self rhs = Ruint.Gen.uint_rotate_right fuel BITS LIMBS self rhs)
+    ∧ (∀ (fuel : Nat) (BITS LIMBS : Nat) (bytes : List Nat), Ruint.Gen.bits_try_from_be_slice fuel BITS LIMBS bytes = Ruint.Gen.uint_try_from_be_slice fuel BITS LIMBS bytes)
+    ∧ (∀ (fuel : Nat) (BITS LIMBS : Nat) (bytes : List Nat), Ruint.Gen.bits_try_from_le_slice fuel BITS LIMBS bytes = Ruint.Gen.uint_try_from_le_slice fuel BITS LIMBS bytes)
+    ∧ (∀ (fuel : Nat) (BITS LIMBS : Nat) (src : List Nat) (radix : Nat), Ruint.Gen.bits_from_str_radix fuel BITS LIMBS src radix = Ruint.Gen.uint_from_str_radix fuel BITS LIMBS src radix)
+    ∧ (∀ (BITS LIMBS : Nat) (limbs : List Nat), Ruint.Gen.bits_from_limbs BITS LIMBS limbs = Ruint.Gen.uint_from_limbs BITS LIMBS limbs) := by
+  refine ⟨?_, ?_, ?_, ?_, ?_, ?_, ?_, ?_, ?_, ?_, ?_, ?_, ?_, ?_, ?_, ?_, ?_⟩ <;> intros <;>
+    first
+      | rfl
+      | (simp only [Ruint.Gen.bits_try_from_be_slice, Ruint.Gen.bits_try_from_le_slice, Ruint.Gen.bits_from_limbs]; split <;> simp_all)
 
 end Ruint.C20
